@@ -1,6 +1,6 @@
 #!/bin/sh
 # usage: tools/run_all.sh [quick|thorough]  -- every registered check once on the current tree (rewrites evidence/*.json)
-cd /verif; tier=${1:-quick}
+cd "$(dirname "$0")/.." || exit 2; tier=${1:-quick}
 for n in 01 02 03 04 05 06 07 08 09 10 11 12 13 14 15 16 17 18 19 20; do
   out=$(./check C$n $tier 2>&1); rc=$?
   echo "C$n rc=$rc $(echo "$out" | grep -c '^VIOLATION') violations, $(echo "$out" | grep -c '^KNOWN-FINDING') known | $(echo "$out" | tail -1 | sed 's/.*evaluations/evaluations/' | cut -c1-150)"
